@@ -29,6 +29,7 @@ import Reamber.Lemmas.SMRenderFile
 import Reamber.Lemmas.SMWriteText
 import Reamber.Lemmas.Snapper
 import Reamber.Lemmas.SMTies
+import Reamber.Lemmas.SMTol
 import Mathlib.Tactic.NormNum
 import Reamber.Generated.SMTables
 import Mathlib.Tactic.Ring
@@ -966,6 +967,143 @@ example :
     tempoOkWeak [(0, 120), (8, 60), (8, 240)] = true ∧ tempoOk [(0, 120), (8, 60), (8, 240)] = false ∧
     effectivePairs [(8, 60), (0, 120), (8, 240)] = [(0, 120), (8, 240)] ∧
     timeOfBeat 0 [(0, 120), (8, 60), (8, 240)] 12 = 5000 ∧ timeOfBeat 0 [(0, 120), (8, 240), (8, 60)] 12 = 8000 := by
+  decide +kernel
+
+/-- the order of tied entries matters: `8=60, 8=240` is 240 bpm from beat 8 on, `8=240, 8=60` is 60 bpm — beat 12
+lies at 5000 ms in the first file and at 8000 ms in the second (what a writer that sorts the rows unstably produces
+for the same in-memory list; replayed on the implementation by the corpus cases with tied rows) -/
+theorem tie_order_counterexample :
+    effectivePairs [(0, 120), (8, 60), (8, 240)] = [(0, 120), (8, 240)] ∧
+    effectivePairs [(0, 120), (8, 240), (8, 60)] = [(0, 120), (8, 60)] ∧
+    timeOfBeat 0 [(0, 120), (8, 60), (8, 240)] 12 = 5000 ∧ timeOfBeat 0 [(0, 120), (8, 240), (8, 60)] 12 = 8000 := by
+  decide +kernel
+
+/-! ### the tolerance regime ("within the written grid: 1/96 beat at the local tempo") -/
+
+/-- **The row count of a measure is the LCM of its objects' denominators capped at `MAX_SNAP`** —
+`min(reduce(lcm_and_cap, dens), 384) = min(lcm(dens), 384)`: either the LCM itself (`den_dvd_denMax`: every row exact)
+or exactly 384. -/
+theorem denMax_eq_min_lcm (d : Nat) (t : List Nat) (hpos : ∀ x ∈ d :: t, 0 < x) :
+    denMax (d :: t) = min (t.foldl Nat.lcm d) maxSnap :=
+  SM.denMax_eq_min_lcm d t hpos
+
+/-- **`written_beat_tolerance` — positions.**  For an object at (snapped) beat `beat` in a measure whose objects have the
+denominators `d :: t` (its own among them): the row the writer chooses, read by `4m + 4r/R`, lies at or before `beat`
+and less than 1/96 beat before it — and exactly at `beat` whenever the measure's LCM fits 384 rows. -/
+theorem written_beat_tolerance (beat : Rat) (col : Nat) (ch : Char) (d : Nat) (t : List Nat)
+    (hpos : ∀ x ∈ d :: t, 0 < x) (hmem : (slotOf beat col ch).den ∈ d :: t) :
+    4 * ((slotOf beat col ch).measure : Rat) +
+        4 * ((rowOf (slotOf beat col ch).num (slotOf beat col ch).den (denMax (d :: t)) : Nat) : Rat) /
+          (denMax (d :: t) : Rat) ≤ beat ∧
+    beat - (4 * ((slotOf beat col ch).measure : Rat) +
+        4 * ((rowOf (slotOf beat col ch).num (slotOf beat col ch).den (denMax (d :: t)) : Nat) : Rat) /
+          (denMax (d :: t) : Rat)) < 1 / 96 ∧
+    (t.foldl Nat.lcm d ≤ maxSnap →
+      4 * ((slotOf beat col ch).measure : Rat) +
+        4 * ((rowOf (slotOf beat col ch).num (slotOf beat col ch).den (denMax (d :: t)) : Nat) : Rat) /
+          (denMax (d :: t) : Rat) = beat) := by
+  have hd : 0 < d := hpos d (by simp)
+  have ht : ∀ x ∈ t, 0 < x := fun x hx => hpos x (List.mem_cons_of_mem _ hx)
+  have hL : 0 < t.foldl Nat.lcm d := foldl_lcm_pos d t hd ht
+  have hdm := SM.denMax_eq_min_lcm d t hpos
+  have hexact : t.foldl Nat.lcm d ≤ maxSnap →
+      4 * ((slotOf beat col ch).measure : Rat) +
+        4 * ((rowOf (slotOf beat col ch).num (slotOf beat col ch).den (denMax (d :: t)) : Nat) : Rat) /
+          (denMax (d :: t) : Rat) = beat := by
+    intro hfit
+    have hdvd := den_dvd_denMax d t hpos hfit _ hmem
+    have hp : 0 < denMax (d :: t) := by rw [hdm, Nat.min_eq_left hfit]; exact hL
+    exact SM.slot_beat_exact beat col ch _ hp hdvd
+  by_cases hfit : t.foldl Nat.lcm d ≤ maxSnap
+  · have e := hexact hfit
+    refine ⟨le_of_eq e, ?_, hexact⟩
+    rw [e]; norm_num
+  · have h384 : denMax (d :: t) = 384 := by
+      rw [hdm]; exact Nat.min_eq_right (Nat.le_of_lt (Nat.lt_of_not_le hfit))
+    rw [h384]
+    obtain ⟨h1, h2⟩ := SM.written_beat_within_row beat col ch 384 (by decide)
+    refine ⟨h1, ?_, fun h => absurd h hfit⟩
+    have : (4 : Rat) / ((384 : Nat) : Rat) = 1 / 96 := by norm_num
+    rw [this] at h2
+    linarith
+
+/-- **`written_time_tolerance` — times.**  Two beats `w ≤ b` less than 1/96 beat apart that lie in one tempo segment of
+the written `#BPMS` (every entry is at or before both or after both) are less than 1/96 of that segment's beat length
+apart in time: with `written_beat_tolerance`, the StepMania time of the written row is at most "1/96 beat at the local
+tempo" before the time of the object's beat. -/
+theorem written_time_tolerance (offsetSec : Rat) (bpms : List (Rat × Rat)) (w b : Rat) (hw : w ≤ b) (hlt : b - w < 1 / 96)
+    (hpos : ∀ p ∈ bpms, 0 < p.2)
+    (hseg : ∀ c ∈ changesOf bpms, c.snap.le (snapOfBeat w) = c.snap.le (snapOfBeat b)) :
+    0 ≤ timeOfBeat offsetSec bpms b - timeOfBeat offsetSec bpms w ∧
+    (bpms ≠ [] → timeOfBeat offsetSec bpms b - timeOfBeat offsetSec bpms w <
+      beatLen (activeChange (changesOf bpms) (snapOfBeat w)).bpm / 96) := by
+  unfold timeOfBeat
+  cases hcs : changesOf bpms with
+  | nil =>
+    refine ⟨by simp [timeAt], fun hne => ?_⟩
+    exfalso
+    rw [changesOf_eq] at hcs
+    have h1 : isort (fun a b : Rat × Rat => decide (a.1 ≤ b.1)) bpms = [] := List.map_eq_nil_iff.mp hcs
+    have h2 := (Reamber.Analysis.isort_perm (fun a b : Rat × Rat => decide (a.1 ≤ b.1)) bpms)
+    rw [h1] at h2
+    exact hne h2.symm.eq_nil
+  | cons c rest =>
+    rw [hcs] at hseg
+    have hd := timeAtAux_same_segment (-(1000 * offsetSec)) c rest (snapOfBeat w) (snapOfBeat b)
+      (fun x hx => hseg x (List.mem_cons_of_mem _ hx))
+    -- the change in force is one of the written pairs: metronome 4, positive tempo
+    have hmem : activeAux c rest (snapOfBeat w) ∈ changesOf bpms := by rw [hcs]; exact activeAux_mem c rest _
+    rw [changesOf_eq] at hmem
+    obtain ⟨p, hp, hpe⟩ := List.mem_map.mp hmem
+    have hp' : p ∈ bpms := (Reamber.Analysis.isort_perm _ bpms).mem_iff.mp hp
+    have hmet : (activeAux c rest (snapOfBeat w)).met = 4 := by rw [← hpe]; rfl
+    have hbpm : 0 < (activeAux c rest (snapOfBeat w)).bpm := by rw [← hpe]; exact hpos p hp'
+    have hbl : 0 < beatLen (activeAux c rest (snapOfBeat w)).bpm := by
+      unfold beatLen minToMsec; positivity
+    rw [hmet, snapDist_snapOfBeat] at hd
+    simp only [timeAt, activeChange]
+    rw [hd]
+    refine ⟨mul_nonneg (by linarith) (le_of_lt hbl), fun _ => ?_⟩
+    have : (b - w) * beatLen (activeAux c rest (snapOfBeat w)).bpm <
+        1 / 96 * beatLen (activeAux c rest (snapOfBeat w)).bpm := mul_lt_mul_of_pos_right hlt hbl
+    linarith
+
+/-- non-vacuity: an object at beat 5/9 in a measure with denominators 128, 36, 20 is written in row 53 of 384 (beat
+53/96), 1/288 beat early; at 120 bpm that is 125/72 ms, the bound being 500/96 = 125/24 ms -/
+example : (slotOf (5 / 9) 0 '1').den ∈ [128, 36, 20] ∧
+    timeOfBeat 0 [(0, 120)] (5 / 9) - timeOfBeat 0 [(0, 120)] (53 / 96) = 125 / 72 ∧
+    beatLen (activeChange (changesOf [(0, 120)]) (snapOfBeat (53 / 96))).bpm / 96 = 125 / 24 := by
+  decide +kernel
+
+/-! ### hypotheses of `write_read_exact` that cannot be dropped (each replayed on the implementation: the corpus of
+`harness/props/c03.py` holds the same inputs, and (C) compares the implementation's text with the model's) -/
+
+/-- "every denominator divides its measure's row count" (`EventsOK`): with denominators 128, 36, 20 in one measure the
+row count is capped at 384, 36 ∤ 384, and the object at beat 5/9 is written at beat 53/96 — 1/288 beat early (inside
+the 1/96-beat regime of `written_beat_tolerance`, but not exact). -/
+theorem cap_counterexample :
+    denMax [128, 36, 20] = 384 ∧ ¬ (36 ∣ 384) ∧ (slotOf (5 / 9) 0 '1').den = 36 ∧ (slotOf (5 / 9) 0 '1').num = 5 ∧
+    4 * ((rowOf 5 36 384 : Nat) : Rat) / 384 ≠ 5 / 9 ∧ (5 / 9 : Rat) - 4 * ((rowOf 5 36 384 : Nat) : Rat) / 384 = 1 / 288 := by
+  decide +kernel
+
+/-- "no two events in one (column, beat)" (`EventsOK`): a tap and a mine in one cell — only the later one of the
+writer's order is in the text, the file denotes one object fewer. -/
+theorem collision_counterexample :
+    (fillMeasure 4 [⟨0, 0, 4, 1, '1'⟩, ⟨0, 0, 4, 1, 'M'⟩, ⟨0, 1, 4, 2, '1'⟩]).toOption =
+      some [['0', 'M', '0', '0'], ['0', '0', '1', '0'], ['0', '0', '0', '0'], ['0', '0', '0', '0']] := by
+  decide +kernel
+
+/-- "holds/rolls of one column do not overlap" (`NoOverlap`): head, head, tail, tail in one column is not
+well-bracketed — the pairing fails on the second head and one object is left. -/
+theorem overlap_counterexample :
+    let evs : List SEv := [(0, 0, .head .hold), (0, 1, .head .hold), (0, 2, .tail), (0, 3, .tail)]
+    (pairAll evs).ok = false ∧ (pairAll evs).notes.length = 1 := by
+  decide +kernel
+
+/-- "`−1000·#OFFSET` = the first tempo point" (the property's domain; hypothesis `ho`): with another offset every time
+of the file is displaced by the difference. -/
+theorem offset_counterexample :
+    timeOfBeat 0 [(0, 120)] 4 = 2000 ∧ timeOfBeat (-1) [(0, 120)] 4 = 3000 := by
   decide +kernel
 
 /-!
